@@ -627,9 +627,14 @@ example : ∀ i, i < 2 → (((⟨2, 3, #[0, 1, 3], #[1, 0, 2], #[2, 1, 3]⟩ : C
 
 /-- the remaining Boolean specifications of the driver hold of the model's outputs -/
 theorem spec_lines_hold_of_model_2 (tol : Rat) (ht : 0 ≤ tol) (a l : Mat) (h : getLaplacian a = .ok l)
-    (labels : List Int) (m : Int) :
-    LaplacianSpec tol a l = true ∧ MembershipSpec labels (csrDense (membershipCsr labels m)) = true :=
-  ⟨laplacianSpec_model tol ht a l h, membershipSpec_model labels m⟩
+    (labels : List Int) (nl : Option Nat) (m : Int) (hm : membershipCols labels nl = .ok m) :
+    LaplacianSpec tol a l = true ∧ MembershipSpec labels nl (csrDense (membershipCsr labels m)) = true :=
+  ⟨laplacianSpec_model tol ht a l h, membershipSpec_model labels nl m hm⟩
+
+/-- the specification looks at the number of columns: a matrix with a column too many is rejected -/
+example : MembershipSpec [0, 1] none ⟨2, 3, [[1, 0, 0], [0, 1, 0]]⟩ = false ∧
+    MembershipSpec [0, 1] none ⟨2, 2, [[1, 0], [0, 1]]⟩ = true ∧
+    MembershipSpec [0, 1] (some 3) ⟨2, 3, [[1, 0, 0], [0, 1, 0]]⟩ = true := by decide +kernel
 
 /-! ## ★ topk_spec -/
 
